@@ -18,6 +18,9 @@ import (
 
 func TestMain(m *testing.M) {
 	logging.SetAllLoggers(logging.LevelFatal)
+	if l := os.Getenv("VERIF_DEBUG_LOGGER"); l != "" {
+		_ = logging.SetLogLevel(l, "debug")
+	}
 	os.Exit(m.Run())
 }
 
